@@ -7,10 +7,10 @@ from .. import land
 LEVEL = 'exploration'
 ENGINE = 'SEQ'
 TECHNIQUE = 'exhaustive product of (persistent class, state at restart, number of consecutive restarts, results pipe, restart arguments) executed as operation histories on real workers and checked against a reference model of a fresh worker'
-LEVEL_TEXT = ('every combination of the bounded product is run on real workers: 3 classes x 9 states at restart (never used, results unread, large results unread, inputs queued, closed, died by exception, killed, uncooperative, killed with a parked forwarder) x 1-3 restarts x default/supplied results pipe x restart arguments; oracle: live worker, same name/userid/target/defaults, new identity for process/remote kinds, old child gone, the new stream yields exactly the post-restart results in order, result counts post-restart enqueues, raises (and keeps the old child) when the old incarnation cannot be stopped')
+LEVEL_TEXT = ('every combination of the bounded product is run on real workers: 3 classes x 11 states at restart (never used, results unread, large results unread, inputs queued, closed, died by exception, killed, uncooperative, cooperative with a slow clean-up, killed with a parked forwarder, killed with a slow consumer) x 1-3 restarts x default/supplied results pipe x restart arguments; oracle: live worker, same name/userid/target/defaults, new identity for process/remote kinds, old child gone, the new stream yields exactly the post-restart results in order, result counts post-restart enqueues, raises (and keeps the old child) when the old incarnation cannot be stopped')
 LEVEL_NOTE = 'the state alphabet is finite and hand-picked from the statement; timing inside a state (how far the old child got) is whatever the OS does, the oracle does not depend on it'
 
-STATES = ['fresh', 'unread', 'big-unread', 'queued', 'closed', 'died', 'killed', 'stubborn', 'killed+parked', 'killed+slow-consumer']
+STATES = ['fresh', 'unread', 'big-unread', 'queued', 'closed', 'died', 'killed', 'stubborn', 'slow-unwind', 'killed+parked', 'killed+slow-consumer']
 
 
 def prep(state, kind, tmp):
@@ -34,6 +34,8 @@ def prep(state, kind, tmp):
         return [E('old1'), E('old2'), {'op': 'sleep', 's': 0.35}, {'op': 'kill', 'var': 'w', 'sig': 'KILL'}, {'op': 'sleep', 's': 0.1}]
     if state == 'stubborn':
         return [E('STUBBORN'), {'op': 'sleep', 's': 0.2}]
+    if state == 'slow-unwind':
+        return [E('SLOWUNWIND'), {'op': 'sleep', 's': 0.2}]
     raise ValueError(state)
 
 
@@ -50,8 +52,12 @@ def scripts(quick):
                     continue
                 if state == 'killed+slow-consumer' and pipe == 'default':
                     continue
-                for rargs in ('default', 'timeout', 'noforce'):
-                    if state != 'stubborn' and rargs == 'noforce' and state not in ('killed+parked', 'queued', 'big-unread', 'killed+slow-consumer'):
+                for rargs in ('default', 'timeout', 'noforce', 'zero'):
+                    if rargs == 'zero' and state not in ('stubborn', 'queued', 'fresh', 'slow-unwind'):
+                        continue      # timeout=0 ("do not wait at all"), force=False
+                    if state == 'slow-unwind' and rargs not in ('noforce', 'zero'):
+                        continue      # default: waits for ever; with force a thread-like child takes the caller along
+                    if state != 'stubborn' and rargs == 'noforce' and state not in ('killed+parked', 'queued', 'big-unread', 'killed+slow-consumer', 'slow-unwind'):
                         continue
                     if state in ('killed+parked', 'killed+slow-consumer') and rargs != 'noforce':
                         continue      # with force the library's documented last resort is SIGTERM to the calling process
@@ -62,7 +68,7 @@ def scripts(quick):
                     if state == 'big-unread' and (rargs == 'default' or (kind in ('PT', 'PR') and rargs != 'noforce')):
                         continue      # nobody reads the full pipe: waiting for ever is the documented behaviour; force kills the caller
                     for nres in ((1, 2) if quick else (1, 2, 3)):
-                        if nres > 1 and state in ('stubborn', 'killed+parked', 'big-unread', 'killed+slow-consumer'):
+                        if nres > 1 and state in ('stubborn', 'killed+parked', 'big-unread', 'killed+slow-consumer', 'slow-unwind'):
                             continue
                         target = 'slow_echo'
                         kw = {}
@@ -80,6 +86,8 @@ def scripts(quick):
                                 rk = {'timeout': 0.3}
                             elif rargs == 'noforce':
                                 rk = {'timeout': 0.3, 'force': False}
+                            elif rargs == 'zero':
+                                rk = {'timeout': 0, 'force': False}
                             if pipe == 'supplied' and state != 'killed+slow-consumer':
                                 rk['results_pipe'] = '<new-pipe>'
                             sc += [{'op': 'restart', 'var': 'w', 'kwargs': rk, 'tag': 'restart%d' % r, 'timeout': 40}]
@@ -116,7 +124,7 @@ def judge(case, obs):
         rs = t.get('restart%d' % r)
         if rs is None:
             return [('harness', 'restart step missing')]
-        cannot_stop = (state == 'stubborn' and (case['rargs'] == 'noforce')) or state in ('killed+parked', 'killed+slow-consumer') or \
+        cannot_stop = (state == 'stubborn' and (case['rargs'] in ('noforce', 'zero'))) or state in ('killed+parked', 'killed+slow-consumer') or \
             (state == 'big-unread' and case['rargs'] == 'noforce')
         if cannot_stop and r == 0:
             if rs.get('exc') != 'RuntimeError':
